@@ -42,7 +42,7 @@ TraceInit ==
   /\ stuck = FALSE
   /\ desc = [ g \in Grids |-> [ route |-> Index[tr].desc[g].route, shape |-> Index[tr].desc[g].shape ] ]
   /\ mesh = [ g \in Grids |-> Index[tr].mesh[g] ]
-  /\ grid = [ g \in Grids |-> [ open |-> FALSE, store |-> {}, helper |-> {}, chunked |-> FALSE ] ]
+  /\ grid = [ g \in Grids |-> [ open |-> FALSE, store |-> {}, helper |-> {}, chunked |-> FALSE, src |-> {} ] ]
   /\ exports = <<>> /\ tmplTopo = {} /\ tmplEdge = {} /\ ops = 0 /\ bad = {} /\ hist = <<>>
 
 IsEvent(L, ev) == L.ev = ev
